@@ -285,10 +285,10 @@ def batches(rng, tier):
     yield from batches2(rng, tier)
     if thorough:
         ops = []
-        for f in ("diff_u16", "diff_i16", "mod_u16"):
+        for f in ("diff_u16", "diff_i16", "mod_u16", "bit_test_u16", "div_u16", "div_i16", "ceil_div_signed_i16"):
             base = -32768 if "_i16" in f else 0
-            ops += [f"selfcheck {f} {base + r} {base + r + 2047}" for r in range(0, 65536, 2048)]     # 32 lines of 2048 rows each
-        yield Batch("full-16bit-squares", ops, exhaustive=True, note="all 2^32 operand pairs of the 16-bit instantiation against the harness' 128-bit oracle")
+            ops += [f"selfcheck {f} {base + r} {base + r + 4095}" for r in range(0, 65536, 4096)]     # 16 lines of 4096 rows each
+        yield Batch("full-16bit-squares", ops, exhaustive=True, note="all 2^32 operand pairs of every binary 16-bit instantiation (diff u16/i16, mod, bit::test, div u16/i16, ceil_div_signed i16) against the harness' wide-arithmetic oracle")
         ops = []
         for f, t in [("mod", "u16"), ("diff", "u16"), ("diff", "i16"), ("bit_test", "u16")]:
             for _ in range(6):
